@@ -1017,3 +1017,65 @@ theorem replaceWith_many_effect {h h' : Heap} {x p : Nat} {ys pre post : List Na
       rw [insertElems_parent ys h1 pre.length h' pos2 hg1' hptag1 hkys1 hel x hxy, hp1 x]; simp
 
 end BS.Heap
+
+namespace BS.Heap
+
+/-- the element loop leaves the children of every tag other than the target with exactly the inserted elements removed -/
+theorem insertElems_others {p : Nat} : ∀ (xs : List Nat) (h : Heap) (pos : Nat) (h' : Heap) (pos' : Nat),
+    Good2 h → (h.kind p).isTag = true → (∀ x ∈ xs, h.kind x ≠ .soup) → xs.Nodup →
+    insertElems h p pos xs = .ok (h', pos') → ∀ n, n ≠ p → h'.kids n = (h.kids n).filter (fun k => !xs.contains k) := by
+  intro xs
+  induction xs with
+  | nil =>
+    intro h pos h' pos' _ _ _ _ hi n _
+    simp only [insertElems] at hi; cases hi
+    exact (List.filter_eq_self.mpr (fun _ _ => rfl)).symm
+  | cons x xs ih =>
+    intro h pos h' pos' hg hp hk hnd hi n hn
+    have hxk := hk x (by simp)
+    simp only [insertElems] at hi
+    cases hcore : insertCore h p pos x with
+    | error e => simp only [hcore] at hi; cases hi
+    | ok h1 =>
+      simp only [hcore] at hi
+      cases hidx : indexOf h1 p x with
+      | none => simp only [hidx] at hi; cases hi
+      | some i =>
+        simp only [hidx] at hi
+        obtain ⟨hg1, hks1⟩ := insertCore_good2 extract_spec linkChild_spec hg hp hxk hcore
+        have hp1 : (h1.kind p).isTag = true := by rw [hks1.1 p]; exact hp
+        have hk1 : ∀ z ∈ xs, h1.kind z ≠ .soup := fun z hz hs => hk z (by simp [hz]) ((hks1.2 z).mp hs)
+        have hsh := insertCore_shape extract_spec linkChild_spec hg.1 hp hxk hcore
+        rw [ih h1 (i + 1) h' pos' hg1 hp1 hk1 (List.nodup_cons.mp hnd).2 hi n hn, hsh.2.1 n hn,
+          filter_erase_cons (good_kids_nodup hg.1 n)]
+
+/-- **a whole BeautifulSoup object as the argument of `insert`**: its children — all of them, in order — are moved to the slot,
+    contiguously; the BeautifulSoup object itself stays where it was, childless; the other children of the target keep their order -/
+theorem insert_soup_effect {h h' : Heap} {p s position : Nat} {ins : List Nat} (hg : Good2 h) (hp : (h.kind p).isTag = true)
+    (hs : h.kind s = .soup) (hsp : s ≠ p) (hpos : position ≤ (h.kids p).length)
+    (hi : insert h p position [.node s] = .ok (h', ins)) :
+    ins = h.kids s ∧
+    h'.kids p = ((h.kids p).take position).filter (fun k => !(h.kids s).contains k) ++ h.kids s ++
+                ((h.kids p).drop position).filter (fun k => !(h.kids s).contains k) ∧
+    h'.kids s = [] := by
+  obtain ⟨w, hwf⟩ := hg.1
+  unfold insert at hi
+  simp only [insertArgs, insertArg1, hs, if_true, hsp, if_false] at hi
+  cases hel : insertElems h p position (h.kids s) with
+  | error e => simp only [hel] at hi; cases hi
+  | ok r =>
+    obtain ⟨h2, pos2⟩ := r
+    simp only [hel] at hi
+    cases hi
+    have hnd := good_kids_nodup hg.1 s
+    have hk : ∀ x ∈ h.kids s, h.kind x ≠ .soup := fun x hx => wf_kid_not_soup hwf hx
+    have hcont := insertElems_contiguous extract_spec linkChild_spec (h.kids s) h position h' pos2
+      ((h.kids p).take position) [] ((h.kids p).drop position) hg hp hnd hk (fun _ _ hm => by cases hm) (by simp)
+      (by simp [Nat.min_eq_left hpos]) hel
+    refine ⟨by simp, by simpa using hcont.1, ?_⟩
+    rw [insertElems_others (h.kids s) h position h' pos2 hg hp hk hnd hel s hsp]
+    apply List.filter_eq_nil_iff.mpr
+    intro a ha
+    simp [ha]
+
+end BS.Heap
